@@ -214,6 +214,48 @@ Theorem C02_ids_spec : forall ops, Forall op_in_range ops ->
   ids_check ops (snd (hm_run hm_new ops)) = true.
 Proof. exact ids_spec. Qed.
 
+(* The runner does not see the real history: the peer's events are in their real order, the
+   callers' events are stamped by other threads (submit before the call, outcome after the return)
+   and land anywhere among them.  [observes tr obs]: same peer events in the same order, every real
+   outcome is somewhere in the observation.  If the OBSERVATION is accepted, the REAL history
+   satisfies sentence 2 literally and sentence 1 up to "the answer was sent before the caller
+   returned" (which no observer of time stamps can see). *)
+Theorem C02_trace_skew : forall tr obs, observes tr obs -> c02_trace_ok obs = true ->
+  (forall a b c sid m1 m2, tr = a ++ EIn sid m1 :: b ++ EIn sid m2 :: c -> In (EOut sid m1) b) /\
+  (forall m m', In (EDone m (ORows m')) tr ->
+     m' = m /\ exists a b c sid, tr = a ++ EIn sid m :: b ++ EOut sid m :: c).
+Proof. exact trace_skew_sound. Qed.
+
+(* Bracket of old_orphans_count over a whole run: the same operations under two clock labellings,
+   the first with every orphaning read later and every count read earlier: all other results are
+   equal, every count of the first is <= the count of the second.  (The real readings lie between
+   the runner's stamps, so the real counts lie between the driver's two model runs.) *)
+Theorem C02_count_bracket_run : forall a b, same_ops a b -> stamps_le a b ->
+  Forall op_in_range (untimed a) ->
+  Forall2 res_le (snd (th_run th_new a)) (snd (th_run th_new b)).
+Proof. exact th_bracket. Qed.
+
+(* reader(): only stream ids >= 0 reach lookup (so every lookup the reader makes is in range, the
+   premise of C02_sm_spec / C02_ids_spec); -1 is an event, other negative ids are dropped *)
+Theorem C02_dispatch_lookup : forall raw sid, reader_dispatch raw = DLookup sid -> sid = raw /\ sid < nids.
+Proof. exact dispatch_lookup. Qed.
+Theorem C02_dispatch_negative : forall raw, 32768 <= raw ->
+  reader_dispatch raw = (if raw =? 65535 then DEvent else DIgnore).
+Proof. exact dispatch_negative. Qed.
+
+(* orphaner(): a tick breaks the connection iff more than 1024 ids have been orphaned for longer
+   than 1 s -- hence never with at most 1024 orphans --, it reads the map only, and once it would
+   break it keeps doing so as the clock advances.  At the connection level the break is the label
+   [Break]: it preserves the invariant (C02_inv_step), so nothing is misrouted by it. *)
+Theorem C02_tick : forall t now,
+  (orphaner_tick_breaks t now = true <-> old_count_threshold < th_old_orphans_count t now) /\
+  (orphaner_tick_breaks t now = true -> old_count_threshold < N.of_nat (List.length (ot_by (th_ot t)))) /\
+  fst (th_step t (TCount now)) = t.
+Proof. exact tick_breaks_spec. Qed.
+Theorem C02_tick_mono : forall t now now', now <= now' ->
+  orphaner_tick_breaks t now = true -> orphaner_tick_breaks t now' = true.
+Proof. exact tick_mono. Qed.
+
 (* ---- the frame reader on the byte stream (part 6; [parse_frame] = C10's model of
    read_response_frame) ---- exactly 9 + `length` bytes per frame, for any length *)
 Theorem C02_reader_exact : forall f rest, frame_wf f ->
@@ -330,6 +372,23 @@ Example C02_ex_trace_rejects2 :
   c02_trace_ok [ESub 1; EIn 5 1; EOut 5 1; ESub 2; EIn 5 2; EOut 5 2; EDone 2 (ORows 2)] = true.
 Proof. repeat split; vm_compute; reflexivity. Qed.
 
+Example C02_ex_dispatch :
+  reader_dispatch 0 = DLookup 0 /\ reader_dispatch 32767 = DLookup 32767 /\
+  reader_dispatch 32768 = DIgnore /\ reader_dispatch 65534 = DIgnore /\ reader_dispatch 65535 = DEvent.
+Proof. repeat split. Qed.
+
+(* two orphans, threshold 1024: no break; the observation relation on a concrete pair; a bracket *)
+Example C02_ex_tick_skew :
+  orphaner_tick_breaks (fst (th_run th_new [TOp (OpAlloc 1 1) 0; TOp (OpAlloc 2 2) 0; TOp (OpOrphan 1) 1;
+                                           TOp (OpOrphan 2) 2])) (5 * old_age_ns) = false /\
+  observes [ESub 1; EIn 0 1; EOut 0 1; EDone 1 (ORows 1)] [ESub 1; EIn 0 1; EOut 0 1; EDone 1 (ORows 1)] /\
+  observes [EIn 0 1; ESub 1; EDone 1 (ORows 1); EOut 0 1] [ESub 1; EIn 0 1; EOut 0 1; EDone 1 (ORows 1)] /\
+  stamps_le [TOp (OpAlloc 1 1) 0; TOp (OpOrphan 1) 9; TCount 20] [TOp (OpAlloc 1 1) 5; TOp (OpOrphan 1) 7; TCount 30].
+Proof.
+  repeat split; try (vm_compute; reflexivity); try (cbn; lia).
+  all: intros e He Hin; cbn in Hin; cbn; tauto.
+Qed.
+
 Print Assumptions C02_bitmap_alloc.
 Print Assumptions C02_bitmap_full.
 Print Assumptions C02_bitmap_free.
@@ -360,3 +419,9 @@ Print Assumptions C02_reader_frames.
 Print Assumptions C02_trace_no_share.
 Print Assumptions C02_trace_delivery.
 Print Assumptions C02_ids_spec.
+Print Assumptions C02_trace_skew.
+Print Assumptions C02_count_bracket_run.
+Print Assumptions C02_dispatch_lookup.
+Print Assumptions C02_dispatch_negative.
+Print Assumptions C02_tick.
+Print Assumptions C02_tick_mono.
